@@ -469,11 +469,12 @@ def snapshot(stage):
     req, resp = cherrypy.serving.request, cherrypy.serving.response
     snap = {'stage': stage, 'seen': seen_tokens(), 'contents': slot_contents(req, resp),
             'serving': sorted(vars(cherrypy.serving))}
-    if stage == 'start:in':
+    if req is not rec.get('last_req'):          # a new request object on this call (first one, or internal redirect)
         if rec.get('open'):
             EVENTS.append(('D', plan['token'], rec['sub']))
         rec['sub'] = rec.get('sub', -1) + 1
         rec['open'] = True
+        rec['last_req'] = req
         EVENTS.append(('B', plan['token'], rec['sub']))
     snap['sub'] = rec.get('sub', 0)
     EVENTS.append(('O', plan['token'], rec.get('sub', 0), len(rec['snaps'])))
@@ -704,6 +705,7 @@ def do_call(site, plan, park):
     if rec.get('open'):
         EVENTS.append(('D', plan['token'], rec['sub']))
         rec['open'] = False
+    rec.pop('last_req', None)
     rec['serving_after'] = sorted(vars(cherrypy.serving))
     rec['default_after'] = (cherrypy.serving.request is cherrypy._Serving.request and
                             cherrypy.serving.response is cherrypy._Serving.response)
